@@ -328,4 +328,7 @@ class Check:
         if cov["evaluations"] < 1 or cov["distinct_nontrivial"] < 2:
             print("INCONCLUSIVE property=%s reason=nothing observed" % self.prop, flush=True)
             return 2
+        if not self.inconclusive and not os.environ.get("VF_KEEP_WORK") and os.environ.get("VF_RUN"):
+            # a run that held needs no witnesses: give the scratch space back (several GB per check otherwise)
+            shutil.rmtree(os.path.join(CACHE, "work", repo_key(), os.environ["VF_RUN"]), ignore_errors=True)
         return 0
